@@ -6,7 +6,8 @@ Model driver for C02 (functions, closures, generators). One request per line:
     param = `(id n)` | `_` | `(tup <pat>*)` | `(map <entry>*)`
     pat   = `(id n)` | `_` | `(pk n)` | `(pk)` | `(tup <pat>*)` | `(map <entry>*)`
     entry = `(<keyhex> n)` | `(<keyhex> _)`
-    call  = `(plain|piped|inst <generator 0|1> <lhs/instance value or -> (args (<val> <packed 0|1>)*))`
+    call  = `(plain|piped|inst|pinst <generator 0|1> <lhs/instance value or -> (args (<val> <packed 0|1>)*))`
+            (`pinst`: piped into a method of the instance `{tag: 7}`); def may end with `(self j)`
   response: `(t <self.tag or null> <value of every named variable>*)` or an error class
 * `prologue <def>` — the unpack instructions of the function prologue
 * `cap <ex>*` — closures (Model/Capture.lean parts A–C): `impl=<r> spec=<r> shaped=<0|1>`
@@ -52,17 +53,26 @@ def parseParam : Sexp → Option Param
   | .list (.atom "map" :: es) => (es.mapM parseEntry).map Param.map
   | _ => none
 
+def fnMarker : Val := .str ("<fn>".toUTF8.toList.map UInt8.toNat)
+
 open KotoVerif.Bind in
+
 def parseDef : Sexp → Option (FnDef × List Val × List Val)
-  | .list [.atom "fn", .list (.atom "ps" :: ps), oc, va, .list (.atom "caps" :: caps),
-           .list (.atom "dv" :: dv), .list (.atom "cv" :: cv)] => do
+  | .list (.atom "fn" :: .list (.atom "ps" :: ps) :: oc :: va :: .list (.atom "caps" :: caps) ::
+           .list (.atom "dv" :: dv) :: .list (.atom "cv" :: cv) :: rest) => do
     let ps ← ps.mapM parseParam
     let oc ← oc.nat?
     let va ← va.nat?
     let caps ← caps.mapM Sexp.nat?
     let dv ← dv.mapM parseVal
     let cv ← cv.mapM parseVal
-    pure ({ params := ps, optCount := oc, variadic := va == 1, captures := caps }, dv, cv)
+    let selfIdx : Option Nat := match rest with
+      | [.list [.atom "self", j]] => j.nat?
+      | _ => none
+    let srcs : List CapSrc := (List.range cv.length).zip cv |>.map (fun (j, v) =>
+      if selfIdx == some j then CapSrc.self else CapSrc.val v)
+    let all := createCaptures dv srcs fnMarker
+    pure ({ params := ps, optCount := oc, variadic := va == 1, captures := caps }, all.take dv.length, all.drop dv.length)
   | _ => none
 
 open KotoVerif.Bind in
@@ -88,6 +98,7 @@ def handleBind (d : Sexp) (c : Sexp) : String :=
         | "plain", _ => some (callPlain elems f args gen)
         | "piped", some lhs => some (callPiped elems f lhs args gen)
         | "inst", some inst => some (callInstance elems f inst args gen)
+        | "pinst", some lhs => some (callPipedInstance elems f (.map [(.str tagKey, .int 7)]) lhs args gen)
         | _, _ => none
       match bound with
       | none => "bad-request"
@@ -98,6 +109,9 @@ def handleBind (d : Sexp) (c : Sexp) : String :=
           let tag := match self with
             | .map es => (lookupKey tagKey es).getD .null
             | _ => .null
+          -- name 0 = the function itself: the body reports `f == null`
+          let vals := (d.names.zip vals).map (fun (n, v) =>
+            if n == 0 then (match v with | .null => Val.bool true | _ => Val.bool false) else v)
           valStr (.tuple (tag :: vals))
   | _, _ => "bad-request"
 
